@@ -59,7 +59,8 @@ def gen(rng, depth):
     if k == "neg":
         return E.op("neg", a)
     if k == "f":
-        return E.fun("f", a)
+        # (now and then an uninterpreted function whose name ENDS like the parser's internal port marker)
+        return E.fun(rng.choice(["f", "f", "f", "NumPort", "ctrl.OutPort"]), a)
     if k == "g":
         return E.fun("g", a, b)
     if k == "builtin" and rng.random() < 0.5:
